@@ -60,7 +60,7 @@ var c02Step = "s0"
 
 func c02Link(tag string) *hx.MLink {
 	return &hx.MLink{Type: "link", Name: c02Step, Materials: hx.MArtifacts{}, Products: hx.ArtifactsOf(map[string]string{"out.txt": "payload"}),
-		ByProducts: hx.MObj{"return-value": hx.MVal{K: "i", I: 0}}, Command: []string{"build"}, Environment: hx.MObj{"tag": hx.MVal{K: "s", S: tag}}}
+		ByProducts: hx.MObj{"return-value": hx.MVal{K: "i", I: 0}, "stdout": hx.MVal{K: "s", S: "built as " + tag + "\n"}}, Command: []string{"build"}, Environment: hx.MObj{"tag": hx.MVal{K: "s", S: tag}}}
 }
 
 func c02File(tag, nameKey string, wrapper string, sigs ...hx.WSig) hx.WMetaFile {
